@@ -6,7 +6,7 @@
    A loop that is at PRet takes no other action, and its send commutes with every action of the other
    loop and of the parent except the parent's receive; so the replay performs a hidden send only when
    the observed receive needs it (any accepted schedule can be reordered into that shape). *)
-From Hy Require Import lib.Harness model.C04_Framing model.C06_Relay model.C06_E2E model.C06_Hook gen.ParamsC06.
+From Hy Require Import lib.Harness model.C04_Framing model.C06_Relay model.C06_E2E model.C06_Hook model.C06_Events gen.ParamsC06.
 From Coq Require Import ZArith Bool.
 From Coq Require Strings.String.
 Local Open Scope N_scope.
@@ -348,7 +348,12 @@ Inductive case :=
 (* level (b), a request a RequestHook intercepted and then the hook aborted / the dial failed, on the real server and client:
    fast open, abort or failed dial, bytes the hook took off the stream, the dial error, bytes the application read,
    how its Reads ended (1 = EOF) *)
-| CHookFail (fo abort : bool) (pb : N) (msg : String.string) (got fin : N).
+| CHookFail (fo abort : bool) (pb : N) (msg : String.string) (got fin : N)
+(* level (b), the end of a relay on the real server and client, per configuration: EventLogger configured or not, the
+   TrafficLogger vetoed (in the Up / Down direction) or not; observed: whether the user's QUIC connection was closed
+   (veto: new Client.TCP calls fail within the bound; no veto: a fresh request is served), and what the EventLogger's
+   TCPError calls for the request carried (true = a non-nil error) *)
+| CTail (evlog vetoed veto_up closed : bool) (ev_errs : list bool).
 
 (* the model's run of that connection; the whole stream reaches the client, then FIN *)
 Definition check_hookfail (fo abort : bool) (pb : N) (msg : String.string) (got fin : N) : bool :=
@@ -361,6 +366,22 @@ Definition check_hookfail (fo abort : bool) (pb : N) (msg : String.string) (got 
       match client_io fo [Chunk (hstream_out wr run); Ev [] (Some EEof)] [4096%nat; 4096%nat] with
       | inr (g, Some (RStream EEof)) => (blen g =? got) && (fin =? 1)
       | _ => false
+      end
+  | _ => false
+  end.
+
+(* the model's complete tail (model/C06_Events.v) for the value the copy returned: errDisconnect after a veto; without a
+   veto some other value (nil, or an error of an end: the EventLogger's argument is then not predicted) *)
+Definition check_tail (evlog vetoed closed : bool) (ev_errs : list bool) : bool :=
+  let e := if vetoed then GDisconnect else GNil in
+  let run := tail_run false evlog e in
+  match texec false (tail_init evlog e) run with
+  | Some TEnd =>
+      Bool.eqb (closes_conn run) closed &&
+      match evlog, ev_errs with
+      | false, [] => true
+      | true, [b] => if vetoed then Bool.eqb b (negb (forallb (fun x => gerr_eqb x GNil) (events_of run))) else true
+      | _, _ => false
       end
   | _ => false
   end.
@@ -423,6 +444,7 @@ Definition check (c : case) : bool :=
   | CE2E m addr reqpad hl hd ua ub us da db ds de rp rl rd tr tx rx sul sud sdl sdd cli =>
       check_e2e m addr reqpad hl hd ua ub us da db ds de rp rl rd tr tx rx sul sud sdl sdd cli
   | CHookFail fo abort pb msg got fin => check_hookfail fo abort pb msg got fin
+  | CTail evlog vetoed veto_up closed ev_errs => check_tail evlog vetoed closed ev_errs
   end.
 
 Definition mismatches (l : list case) : list nat := mism_from check 0 l.
